@@ -60,7 +60,7 @@ LabelSet(r, i) == IF r.k = "K" /\ KType(r.key) = "scrypt" THEN {"random#" \o ToS
 
 \* A recipient that repeats a label: if its SET equals another recipient's set while the lists differ only by the
 \* repetition, the property text (sets) and a list reading disagree; such lists are marked and no verdict is taken on them.
-LabelBag(r) == IF ~r.labels.present THEN <<>> ELSE SortSeq(r.labels.ls, LAMBDA x, y : x < y)
+LabelBag(r) == [l \in {"a", "b", "c"} |-> IF ~r.labels.present THEN 0 ELSE Cardinality({j \in 1..Len(r.labels.ls) : r.labels.ls[j] = l})]
 Ambiguous(rs) == \E i \in 1..Len(rs) : rs[i].k \in {"L"} /\ LabelSet(rs[i], i) = LabelSet(rs[1], 1) /\ LabelBag(rs[i]) # LabelBag(rs[1])
                                           /\ rs[1].k \in {"L", "K"}
 
